@@ -19,7 +19,11 @@ instances (`highOff`).  Clauses:
 * R2 no-deadlock — after start-up and after every main loop no proxy of the pool the loop started with is still
   runahead-limited at or before `specLimit` with `lowOff` (in particular never in the base cycle);
 * R3 cache-sound — the cached maximum future offset lies within [`lowOff`, `highOff`] of the observed pool, in every
-  observation.
+  observation;
+* R0 offset-recorded — what the construction of a task proxy records as the future offset of an instance is what its
+  prerequisite atoms give.  The offsets used by R1-R3 (and by the model) are computed from the ATOMS of the instance
+  graph (`atomFutOff`: largest distance to an atom at a later cycle, whether written `x[+P2]` or `x[^+P2]`), never
+  from `tdef.max_future_prereq_offset`.
 -/
 import CylcModel.Sched3FutJson
 import CylcModel.Sched3FutSpec
@@ -159,13 +163,17 @@ def judge (c : Case) (o : Json) : Option String := Id.run do
   -- the hypotheses of the theorems on the instance graph
   if !wfSeqs c.graph then return some "graph-wf: a recurrence of the instance graph is not a strictly ascending point list"
   if !wfOff c.graph then return some "graph-wf: the instance graph has a negative future offset"
+  if !wfFut c.graph then return some "graph-wf: a future offset of the instance graph is not the one its prerequisite atoms give"
   let mut known : Option String := none
+  -- a failure of R3 (a bad cached value) is reported only if the trace shows no release failure (R1 / R2): the effect
+  -- on what is released / held back is the property, the cached value is its cause
+  let mut cache : Option String := none
   match judgeStart c.graph obs[0]! with
   | some w => return some w
   | none => pure ()
   for i in [0:obs.size] do
     match judgeCache c.graph i obs[i]! with
-    | some w => return some w
+    | some w => if cache.isNone then cache := some w
     | none => pure ()
     if i ≥ 1 then
       match judgeOp c.graph obs ops i with
@@ -173,12 +181,29 @@ def judge (c : Case) (o : Json) : Option String := Id.run do
         if !attributed w then return some w
         if known.isNone then known := some w
       | none => pure ()
-  return known
+  match cache with
+  | some w => return some w
+  | none => return known
+
+/-- R0 offset-recorded - constructing a proxy of an instance records (in `tdef.max_future_prereq_offset`) exactly the
+largest distance to a prerequisite atom at a later cycle, however the trigger is written (`x[+P2]`, `x[^+P2]`) -/
+def judgeRecorded (g : Graph) (i : Json) : Option String :=
+  let rec go : List (String × Int × Option Int) → Option String
+    | [] => none
+    | (n, p, rec_) :: rest =>
+      let want := instOff g n p
+      if rec_ == want then go rest
+      else some s!"offset-not-recorded: {p}/{n}: constructing the task proxy records future offset {showOpt rec_}, its prerequisite atoms give {showOpt want}"
+  go (recordedOffs ((jField? i "graph").getD Json.null))
 
 def handle (i o : Json) : Except String Reply := do
   if let some r := crashReply? i then return r
   let c ← parseCase i
-  match judge c o with
+  -- behavioural clauses first (R1-R3 on the trace), then the static one
+  let verdict := match judge c o with
+    | some w => if attributed w then (match judgeRecorded c.graph i with | some w0 => some w0 | none => some w) else some w
+    | none => judgeRecorded c.graph i
+  match verdict with
   | some w => return { model := modelObs c, holds := false, why := w }
   | none => return { model := modelObs c, holds := true }
 
